@@ -222,6 +222,12 @@ class Gen:
         return self.rng.choice(plain or PLAIN)
 
     def text(self):
+        if self.rng.random() < 0.02:
+            # longer than expat's 8 KiB text buffer: the character-data handler is called several times for one node
+            k = self.rng.randint(0, 99)
+            if self.rng.random() < 0.5:
+                return ' '.join(f'w{k + i}' for i in range(self.rng.randint(1800, 2600)))
+            return ' '.join('定義' * 40 + str(k + i) for i in range(self.rng.randint(40, 60)))
         t = self.rng.choice(TEXTS)
         if self.rng.random() < self.hostile:
             t = t + ' ' + self.rng.choice(['A&B', '<x>', '"q"', '𝒳', '水'])
